@@ -71,3 +71,25 @@ Theorem c01_parameter_evaluation_hits_no_unchecked_failure :
     StoreInv w -> params_ready w ps loc -> ~ is_ub (param_views w ps loc).
 Proof. exact param_views_ok. Qed.
 Print Assumptions c01_parameter_evaluation_hits_no_unchecked_failure.
+
+(* every world reachable by any sequence of calls (with any handler behaviour) satisfies all the
+   invariants DI and the static handler invariant SInv (a handler's filter implies each of its
+   targeted-receiver queries; a handler of a global event has no targeted receiver) *)
+Theorem c01_reachable_worlds_satisfy_all_invariants :
+  forall (beh : hinfo -> logent -> N -> script) (fuel p : N) (ops : list top_all),
+    EI (fold_left (run_top_all beh) ops (world0 fuel p)).
+Proof. exact reachable_EI. Qed.
+Print Assumptions c01_reachable_worlds_satisfy_all_invariants.
+
+(* one whole delivery on such a world: once the queued item's event kind is found in the registry,
+   nothing in it - archetype look-up, parameter evaluation of every handler that runs (also after
+   earlier handlers of the same delivery wrote through their views), handler actions, the built-in
+   effect - reaches an unchecked failure *)
+Theorem c01_a_delivery_hits_no_unchecked_failure :
+  forall (beh : hinfo -> logent -> N -> script) (it : qitem) (w : world),
+    DI w -> SInv w ->
+    (if qi_targeted it then get_by_index (w_tev w) (qi_idx it) <> None
+     else get_by_index (w_gev w) (qi_idx it) <> None /\ nget (w_glists w) (qi_idx it) <> None) ->
+    ~ ubf (snd (deliver_one beh it w)).
+Proof. exact deliver_one_no_ub. Qed.
+Print Assumptions c01_a_delivery_hits_no_unchecked_failure.
